@@ -345,6 +345,48 @@ func StartWatchdog(r *R, prop string, limit time.Duration) {
 					break
 				}
 			}
+			if culprit == "" {
+				// nobody is blocked on a lock, yet the bubble never became quiescent: some goroutine keeps running. The harness goroutine
+				// itself sits in synctest.Wait, so a goroutine that is runnable/running in implementation code for the whole
+				// watchdog period is spinning (a loop that neither blocks nor ends).
+				for _, g := range strings.Split(string(buf), "\n\n") {
+					head := g
+					if i := strings.IndexByte(g, '\n'); i > 0 {
+						head = g[:i]
+					}
+					if !strings.Contains(head, "[runnable") && !strings.Contains(head, "[running") {
+						continue
+					}
+					if strings.Contains(g, "StartWatchdog") || strings.Contains(g, "synctest.Wait") {
+						continue
+					}
+					inHarness := false
+					for _, l := range strings.Split(g, "\n") {
+						if strings.HasPrefix(l, "\t") && strings.Contains(l, "zz_verif") {
+							inHarness = true // a harness loop (or harness code on the stack above the implementation): not the implementation's
+						}
+					}
+					if inHarness {
+						continue
+					}
+					lines := strings.Split(g, "\n")
+					for li, l := range lines {
+						if strings.HasPrefix(l, "created by ") {
+							break
+						}
+						if strings.HasPrefix(l, "github.com/IrineSistiana/mosproxy/") && !strings.Contains(l, "zzverif") && li+1 < len(lines) && !strings.Contains(lines[li+1], "zz_verif") {
+							fn := l[strings.LastIndex(l, "/")+1:]
+							if i := strings.LastIndex(fn, "("); i > 0 {
+								culprit = strings.TrimSpace(fn[:i]) // keep going: the outermost implementation frame (the loop's home) names the finding
+							}
+						}
+					}
+					if culprit != "" {
+						r.Violate(prop+":livelock:"+culprit, "the implementation keeps running without ever blocking or finishing (no quiescence for "+limit.String()+"):\n"+trimStack(g), currentReplay())
+						break
+					}
+				}
+			}
 			r.Cap("watchdog: no progress for " + limit.String())
 			r.Write()
 			if culprit != "" {
